@@ -80,6 +80,12 @@ placement_family("inline main, data import with search \"S1\", -L L1 -L L2", ["S
 # ~ and $ORIGIN in -L and in the metadata
 placement_family("~ and $ORIGIN expansion", ["home/S", "bin/T", "home/L", "bin/K"],
                  lambda w: ["-n", "-L", "~/L", "-L", "$ORIGIN/K", 'include "m" {search: ["~/S", "$ORIGIN/T"]}; where'], None)
+# the same from a main program in a file and from a module file (metadata is joined to the importing file's directory
+# only when it is not one of the two prefixes)
+placement_family("~ and $ORIGIN expansion, main in sub/prog.jq", ["home/S", "bin/T", "sub/R", "home/L"],
+                 lambda w: ["-n", "-L", "~/L", "-f", "sub/prog.jq"], 'include "m" {search: ["~/S", "$ORIGIN/T", "R"]}; where\n', main_file="sub/prog.jq")
+placement_family("~ and $ORIGIN expansion in a module's own directive", ["home/S", "bin/T", "lib/R"],
+                 lambda w: ["-n", "-L", "lib", 'include "outer"; where2'], 'include "m" {search: ["~/S", "$ORIGIN/T", "R"]}; def where2: where;\n', main_file="lib/outer.jq")
 # default library paths when no -L is given
 placement_family("default paths ~/.jq, $ORIGIN/../lib/jq, $ORIGIN/../lib", ["home/.jq", "lib/jq", "lib"],
                  lambda w: ["-n", 'include "m"; where'], None)
